@@ -288,6 +288,10 @@ class World:
             run.exit = p.returncode
         finally:
             run.wall = time.time() - t0
+            try:  # nothing the runner started outlives the case
+                os.killpg(run.main_pid, 9)
+            except (OSError, TypeError):
+                pass
         run.out = out.decode('utf-8', 'replace')
         run.err = err.decode('utf-8', 'replace')
         run.failed = None if run.exit not in (0, 1) else bool(run.exit)
